@@ -190,3 +190,36 @@ func (wb *WriteBatch) Flush() error {
 }
 
 func (wb *WriteBatch) Cancel() {}
+
+// ---- explicit transactions ----
+
+func (db *DB) NewTransaction(update bool) *Txn { return &Txn{real: db.real.NewTransaction(update)} }
+func (t *Txn) Discard()                        { t.real.Discard() }
+
+func (t *Txn) Commit() error {
+	vsym.CrashPoint("badger.Txn.Commit/before-commit")
+	if vsym.Fault("badger.Commit") {
+		if vsym.Fault("badger.Commit/persisted-anyway") {
+			_ = t.real.Commit()
+		} else {
+			t.real.Discard()
+		}
+		return inj("badger commit failed")
+	}
+	if err := t.real.Commit(); err != nil {
+		return err
+	}
+	vsym.CrashPoint("badger.Txn.Commit/after-commit")
+	return nil
+}
+
+func (t *Txn) CommitWith(cb func(error)) {
+	go func() {
+		vsym.CrashPoint("badger.Txn.CommitWith/before-commit")
+		err := t.real.Commit()
+		vsym.CrashPoint("badger.Txn.CommitWith/after-commit")
+		if cb != nil {
+			cb(err)
+		}
+	}()
+}
